@@ -354,8 +354,11 @@ def check_atom_guards(repo, scratch):
             gb = m.group(1)
     if ga is None or gb is None:
         res["undecided"].append(base + "same_guard: guard expression not recognised (lost anchor)")
-    elif ga != gb:
+    elif sorted(x.strip() for x in ga.split("& &")) != sorted(x.strip() for x in gb.split("& &")):
+        # the two guards are conjunctions; their order does not matter. Two different conjunct sets can still denote the same
+        # predicate, so the failure needs an atom that the oracle shows to be split in two (tentative otherwise)
         res["failed"].append({"obligation": base + "same_guard", "engine": "structural", "source": "AtomTable::build_with / static_string_index", "at": "src/atom_table.rs, build/static_string_indexing.rs",
+                              "tentative": "shape obligation: the two guards are compared as sets of conjuncts",
                               "message": "inline-atom guards differ: run time `%s`, build time `%s`" % (ga, gb)})
     ma = re.search(r"const\s+INLINED_ATOM_MAX_LEN\s*:\s*usize\s*=\s*(\d+)\s*;", sa)
     mb = re.search(r"const\s+INLINED_ATOM_MAX_LEN\s*:\s*usize\s*=\s*(\d+)\s*;", sb)
@@ -484,6 +487,7 @@ def check_arith_interm(repo, scratch):
             res["undecided"].append(base + "deep_level: no mark_non_var call in compile_is (lost anchor)")
         elif any(c != "Level :: Deep" for c in calls):
             res["failed"].append({"obligation": base + "deep_level", "engine": "structural", "source": "ArithmeticEvaluator::compile_is", "at": "src/arithmetic.rs",
+                                  "tentative": "shape obligation: another way of keeping intermediates away from live registers would also be right",
                                   "message": "an operator cell is marked with level `%s`: at Level::Shallow the value goes to the goal's argument register, which an inlined comparison does not evacuate" % [c for c in calls if c != "Level :: Deep"][0]})
     t = _fn_text(repo, "src/debray_allocator.rs", "mark_non_var")
     if not t:
